@@ -321,7 +321,7 @@ def stats(nodes):
 
 class Profile:
     def __init__(self, depth=3, sibs=4, twin=False, lists=1.0, defs=1.0, spaced=False, verb=1.0,
-                 math=1.0, comments=1.0, strict_sep=False, flat=0):
+                 math=1.0, comments=1.0, strict_sep=False, flat=0, ws=0.0, lines=0.0):
         self.depth = depth
         self.sibs = sibs
         self.twin = twin
@@ -333,6 +333,8 @@ class Profile:
         self.comments = comments
         self.strict_sep = strict_sep   # C14: after every command no letter, *, [, {
         self.flat = flat
+        self.ws = ws        # probability that a text node is a single blank run
+        self.lines = lines  # probability that a text node is a line break (+ indentation)
 
 
 class Ctx:
@@ -391,6 +393,10 @@ class Gen:
 
     # ---- leaves
     def text(self, ctx, maxatoms=5):
+        if self.p.ws and self.chance(self.p.ws):
+            return Node('text', text=self.pick(BLANKS))
+        if self.p.lines and self.chance(self.p.lines):
+            return Node('text', text=self.pick(('\n', '\n  ', ' \n', '\n\n', '\n\t')) + ('' if ctx.math else self.pick(self.words)))
         n = self.int(1, maxatoms)
         parts = []
         for _ in range(n):
@@ -764,6 +770,8 @@ PROFILES = {
     'smalltwin': Profile(depth=2, sibs=3, twin=True),
     'strict': Profile(depth=3, sibs=4, twin=True, strict_sep=True),
     'nomath': Profile(depth=3, sibs=4, math=0.0, verb=0.0, lists=0.0),
+    'ws': Profile(depth=3, sibs=5, ws=0.45),
+    'lines': Profile(depth=3, sibs=5, lines=0.4),
 }
 
 
